@@ -1,14 +1,19 @@
 --------------------------- MODULE MCEntryShapes ---------------------------
 (* Case analysis of EntryShapes: one state per shape; the laws are invariants; every shape is exported. *)
 EXTENDS EntryShapes
-CONSTANTS KeySet, StorageSet
+CONSTANTS KeySet, StorageSet, Big
 VARIABLE s
-Init == s \in {x \in Shapes : x.key \in KeySet /\ x.storage \in StorageSet}
+\* validity: the small instance pairs the first second of a year with the last second of a year (either way round) on
+\* every pair of years; the big one takes every pair of instants
+EdgePairs == IF Big THEN Edges \X Edges ELSE {<<"first", "last">>, <<"last", "first">>}
+Init == s \in {x \in Shapes : /\ x.key \in KeySet /\ x.storage \in StorageSet
+                               /\ (x.valid # StdValidity => <<x.valid.nb.edge, x.valid.na.edge>> \in EdgePairs)}
 Next == UNCHANGED s
 LawAdmissible == Admissible(s)
 LawDetermined == Determined(s)
 LawFinalIssuer == FinalIssuerOK(s)
 \* the cross-signed twin is never swallowed: it is in the stored path whenever it was submitted
 LawCrossKept == s.tail \in {"cross", "crossroot"} => \E i \in 1..Len(StoredPathOf(s)) : StoredPathOf(s)[i] = R1x
+LawFieldsVerbatim == FieldsVerbatim(s) /\ FieldsDoNotMatter(s)
 Export == PrintT(<<"CASE", ToJson(Case(s))>>)
 =============================================================================
